@@ -24,6 +24,12 @@ def write_if_changed(path, text):
     if old != text:
         with open(path, "w") as f:
             f.write(text)
+        # the sandbox clock is coarse: make sure a stale object file can never look newer than the new text
+        for ext in (".vo", ".vok", ".vos", ".glob"):
+            try:
+                os.unlink(path[:-2] + ext)
+            except OSError:
+                pass
         return True
     return False
 
